@@ -161,7 +161,11 @@ func c03SpecExamples(c *ctx) {
 	in := map[string]interface{}{"op": "spec-example", "name": "date minutes", "bytes": "4b4b920ba0"}
 	c.eval("ex:date-minutes")
 	var d interface{}
-	o, m := guard(func() error { var er error; d, er = hessian.ToObject([]byte{0x4b, 0x4b, 0x92, 0x0b, 0xa0}, nil); return er })
+	o, m := guard(func() error {
+		var er error
+		d, er = hessian.ToObject([]byte{0x4b, 0x4b, 0x92, 0x0b, 0xa0}, nil)
+		return er
+	})
 	// under the grammar the four octets are MINUTES since the epoch: 0x4b920ba0 min = 76071745920000 ms
 	if o != oOK || canonTop(d) != "(time 76071745920000)" {
 		c.fail("the compact date form x4b b3..b0 is not read as minutes (bytes of the specification's example x4b x4b x92 x0b xa0)", in, fmt.Sprint(o, m, canonTop(d)), "C03-F1-compact-date-read-as-seconds")
